@@ -14,7 +14,7 @@ QUIET = ('cancelled', 'closed', 'volclosed', 'genexit', 'signal')
 @st.composite
 def cases(draw, tier):
     c = draw(scope_programs(tier, fail=5, volatile=2, until=2, late_spawn=1, priv=2, finally_spawn=0,
-                            nocatch=2, uncaught_blocks=5, finally_raise=2, sync=2, near_dates=2))
+                            nocatch=2, uncaught_blocks=5, finally_raise=2, sync=2, near_dates=2, catch_priv=5))
     if tier == 'thorough' and draw(st.integers(0, 3)) == 0:
         c['faults'] = 'all'
     else:
